@@ -31,7 +31,10 @@ bool splinetable<Alloc>::remove_key(const char* key){
 	//remove the key
 	//first, obtain the (smaller) replacement array, so that if this fails
 	//nothing has been changed yet
-	char_ptr_ptr_ptr new_aux = allocate<char_ptr_ptr>(naux-1);
+	//(an empty store has no array at all, as before the first key was written)
+	char_ptr_ptr_ptr new_aux = nullptr;
+	if (naux>1)
+		new_aux = allocate<char_ptr_ptr>(naux-1);
 	//shuffle all of the remaining keys and values into the new array
 	for (uint32_t j=0, k=0; j<naux; j++) {
 		if (j!=i)
